@@ -153,6 +153,9 @@ Definition decode_matches (uc : bool) (bs : bytes) (got : option bytes) : bool :
 Inductive case :=
 (* pubsubcoreapi WatchPeers: scripted snapshots, observed events per poll, final Peers() *)
 | CWatch (snaps : list (list N)) (obs : list (list pevent)) (final : list N)
+(* pubsubcoreapi WatchPeers on a topic that an earlier watcher (whose context has ended) left
+   with the members [prev]: snapshots, observed events per poll, final Peers() *)
+| CRewatch (prev : list N) (snaps : list (list N)) (obs : list (list pevent)) (final : list N)
 (* WatchMessages (pubsubcoreapi: ordered = true; pubsubraw over libp2p pubsub: ordered = false):
    published (sender, payload) pairs and the payloads handed to the consumer of [self] *)
 | CForward (ordered : bool) (self : N) (msgs : list (N * bytes)) (obs : list bytes)
@@ -178,6 +181,14 @@ Definition check (c : case) : bool * bool :=
   | CWatch snaps obs final =>
     let lastm := last snaps [] in
     (polls_agree [] snaps obs && listN_eqb final lastm,
+     match replay_strict [] (concat obs) with
+     | Some m => set_eqN m lastm
+     | None => false
+     end && set_eqN final lastm && nodupN final)
+  | CRewatch prev snaps obs final =>
+    let lastm := last snaps [] in
+    let start := if rewatch_fresh_current then [] else prev in
+    (polls_agree start snaps obs && listN_eqb final lastm,
      match replay_strict [] (concat obs) with
      | Some m => set_eqN m lastm
      | None => false
